@@ -575,13 +575,20 @@ func (r *c11Runner) one(cfg *c11Cfg, h c11Hist) {
 	explained := false
 	// --- R1: every presented session cookie must be gone from the jar
 	if success || h.Fault == "" {
+		// a cookie "is still there" when the jar holds a cookie of the same identity (name, domain, path, host-only flag),
+		// whether the very one that was presented or one the sign-out response stored over it (refresh on the sign-out request)
+		ident := func(c *vfCookie) string { return fmt.Sprintf("%s\x00%s\x00%s\x00%v", c.Name, c.Domain, c.Path, c.HostOnly) }
 		left := map[*vfCookie]bool{}
+		leftID := map[string]bool{}
 		for _, c := range b.Jar.All() {
 			left[c] = true
+			leftID[ident(c)] = true
 		}
 		var survivors []*vfCookie
+		presentedID := map[string]bool{}
 		for _, c := range presented {
-			if left[c] {
+			presentedID[ident(c)] = true
+			if leftID[ident(c)] {
 				survivors = append(survivors, c)
 			}
 		}
@@ -606,7 +613,7 @@ func (r *c11Runner) one(cfg *c11Cfg, h c11Hist) {
 		// session cookies the sign-out response itself stored (a refresh happened on the sign-out request) and did not delete
 		var fresh []*vfCookie
 		for _, c := range setBySignOut {
-			if left[c] {
+			if left[c] && !presentedID[ident(c)] {
 				fresh = append(fresh, c)
 			}
 		}
@@ -696,7 +703,8 @@ func TestVerif_C11(t *testing.T) {
 	run.Assume("the browser follows RFC 6265 (a deletion only hits a cookie of the same name, domain and path)",
 		"cookie store: an archived cookie replayed by hand may still authenticate (stateless) — recorded, not judged",
 		"refreshes are provoked by ageing the stored session through the store's own load/save (CreatedAt 10 minutes back, --cookie-refresh=1m)")
-	defer debug.SetGCPercent(debug.SetGCPercent(800)) // wall time only: large cookie headers under the race detector
+	defer debug.SetGCPercent(debug.SetGCPercent(400))
+	defer debug.SetMemoryLimit(debug.SetMemoryLimit(3 << 30)) // keeps the laxer pace from growing the heap without bound // wall time only: large cookie headers under the race detector
 	w := vfNewWorld(t)
 	defer w.Close()
 	tab := c11NewTable(w, run.Env.Seed*17+3)
@@ -772,7 +780,13 @@ func TestVerif_C11(t *testing.T) {
 		}
 	}
 	perm := rand.New(rand.NewSource(7)).Perm(len(jobs))
-	vfParallel(len(jobs), 16, func(i int) { j := jobs[perm[i]]; r.one(j.cfg, j.h) })
+	vfParallel(len(jobs), 16, func(i int) {
+		if run.Violations() > 1000 {
+			return // the verdict is settled and the witnesses are on disk
+		}
+		j := jobs[perm[i]]
+		r.one(j.cfg, j.h)
+	})
 
 	injected := 0
 	for _, c := range hub.Log() {
